@@ -144,6 +144,22 @@ def obligations(cx):
                                     if src.method(k, nm) is not None: callees.add((k, nm))
                                 continue
                     if r in src.classes and src.method(r, nm) is not None and isinstance(c.func.value, ast.Name): callees.add((r, nm)); continue
+                    if direct and r not in ('self', 'cls') and cls is not None:
+                        # a local bound to self.<field> (directly, subscripted or by tuple unpacking): typed by the field's annotation
+                        kinds = set()
+                        for a_ in ast.walk(fn):
+                            if isinstance(a_, ast.Assign) and any(isinstance(t_, ast.Name) and t_.id == r for tt_ in a_.targets for t_ in ([tt_] if isinstance(tt_, ast.Name) else tt_.elts if isinstance(tt_, (ast.Tuple, ast.List)) else [])):
+                                v_ = a_.value
+                                while isinstance(v_, ast.Subscript): v_ = v_.value
+                                if isinstance(v_, ast.Attribute) and isinstance(v_.value, ast.Name) and v_.value.id == 'self':
+                                    for st in src.cls(cls).body:
+                                        if isinstance(st, ast.AnnAssign) and isinstance(st.target, ast.Name) and st.target.id == v_.attr:
+                                            kinds |= {x.id for x in ast.walk(st.annotation) if isinstance(x, ast.Name) and x.id in src.classes}
+                                            kinds |= {x.value for x in ast.walk(st.annotation) if isinstance(x, ast.Constant) and isinstance(x.value, str) and x.value in src.classes}
+                        if kinds:
+                            for k in kinds:
+                                if src.method(k, nm) is not None: callees.add((k, nm))
+                            continue
                     for (k, f2) in defs.get(nm, []):
                         if k is not None: callees.add((k, nm))
             graph[(cls, name)] = callees
